@@ -76,6 +76,7 @@ type c03World struct {
 	acc     [c03NAcc]common.Address
 	keys    map[int]cryptotypes.PrivKey // sending accounts: 0 (the chains' sender account), 8, 9
 	updKey  cryptotypes.PrivKey         // signs MsgUpdateClient only
+	emitter common.Address              // a contract that emits PacketSent-shaped logs (it is not the packet contract)
 	updAcc  sdk.AccAddress
 }
 
@@ -114,8 +115,13 @@ func newC03World(t *testing.T) *c03World {
 	if err != nil {
 		t.Fatal(err)
 	}
+	ek, err := ethsecp256k1.GenerateKey()
+	if err != nil {
+		t.Fatal(err)
+	}
 	for i := 0; i < c03NChains; i++ {
 		w.acc[c03AccFwd] = w.deployForwarder(i, fk)
+		w.emitter = w.deployRaw(i, ek, c03InitCode(c03EmitterRuntime()), len(c03EmitterRuntime()))
 	}
 	// clients between every ordered pair (no relayers yet)
 	for i := 0; i < c03NChains; i++ {
